@@ -427,7 +427,7 @@ func runScenario(cb *Comb, sc Scenario) (res scenResult) {
 	go func() { cwg.Wait(); close(done) }()
 	select {
 	case <-done:
-	case <-time.After(20 * time.Second):
+	case <-time.After(10 * time.Second):
 		// bounded progress instead of liveness: decide on the goroutine dump, two samples
 		a := derivedGoroutines()
 		time.Sleep(300 * time.Millisecond)
@@ -631,8 +631,15 @@ func chanMain(c Config, emit func(*Rep)) {
 		sigs := map[uint64]bool{}
 		var samples [][]Ev
 		ops := int64(0)
+		stuck := 0
+	scenarios:
 		for si, sc := range scenariosFor(cb, c.Seed, nscen) {
 			for rep := 0; rep < reps; rep++ {
+				if stuck >= 3 {
+					// every further scenario may wait for the watchdog again: three witnesses are enough
+					r.Res.Classes["skipped-after-repeated-deadlock"]++
+					break scenarios
+				}
 				sc.Seed = sc.Seed*31 + int64(rep)
 				Progress(fmt.Sprintf("%s scenario=%d rep=%d %+v", cb.Name, si, rep, sc))
 				res := runScenario(cb, sc)
@@ -647,6 +654,9 @@ func chanMain(c Config, emit func(*Rep)) {
 				}
 				if len(res.viol) > 0 {
 					for _, v := range res.viol {
+						if strings.HasPrefix(v, "deadlock") {
+							stuck++
+						}
 						r.Fail(strings.SplitN(v, ":", 2)[0], "%s\n scenario: %+v\n history: %s", v, sc, fmtHist(res.hist))
 					}
 					continue
